@@ -126,7 +126,7 @@ func (in c07Input) String() string {
 
 var c07Rcpts = []string{"existing", "fresh", "malformed", "empty", "other-prefix", "blocked-module", "opchild-module"}
 var c07Amounts = []string{"0", "1", "18446744073709551615"}
-var c07Payloads = []string{"none", "random-bytes", "truncated-tx", "bad-signature", "wrong-sequence", "unroutable-msg", "signed[ok]", "signed[ok,fail]", "signed[fail]", "signed[panic]", "signed[gas-exhaust]", "signed[ok,ok]", "executor-signed[finalize-this-very-sequence]"}
+var c07Payloads = []string{"none", "random-bytes", "truncated-tx", "bad-signature", "wrong-sequence", "unroutable-msg", "signed[ok]", "signed[ok,fail]", "signed[fail]", "signed[panic]", "signed[gas-exhaust]", "signed[ok,ok]", "executor-signed[finalize-this-very-sequence]", "unsigned[msg-with-unparseable-signer]", "unsigned[no-messages]"}
 
 func c07Recipient(name string) string {
 	switch name {
@@ -164,6 +164,22 @@ func c07HookGas(name string) uint64 {
 func (cw *c07World) payload(ctx sdk.Context, name string, self *opchildtypes.MsgFinalizeTokenDeposit) ([]byte, int) {
 	if name == "none" {
 		return nil, 0
+	}
+	if name == "unsigned[msg-with-unparseable-signer]" || name == "unsigned[no-messages]" {
+		// decodable transactions nobody has to sign: one whose only message names a signer string that is
+		// no address at all, and one without any message
+		b := cw.w.Enc.TxConfig.NewTxBuilder()
+		if name == "unsigned[msg-with-unparseable-signer]" {
+			if err := b.SetMsgs(&banktypes.MsgSend{FromAddress: "not-a-bech32-address", ToAddress: world.Addr("payee").String(), Amount: sdk.NewCoins(sdk.NewInt64Coin(c07HookDenom, 1))}); err != nil {
+				panic(err)
+			}
+		}
+		b.SetGasLimit(100_000)
+		bz, err := cw.w.Enc.TxConfig.TxEncoder()(b.GetTx())
+		if err != nil {
+			panic(err)
+		}
+		return bz, 0
 	}
 	if name == "executor-signed[finalize-this-very-sequence]" {
 		// re-entrancy: the hook, signed by the bridge executor, relays the very deposit that is being
